@@ -12,6 +12,7 @@ from ..probes import quiet, scratch
 from ..parallel import supervised, read_samples
 from .. import partools
 
+THOROUGH_ROUNDS = 3
 TRUSTED_EXTRA = ["C12: the theorem covers every interleaving of the *model* (processes with FIFO channels of every capacity, from rendezvous to unbounded); OS pipes are "
                  "assumed reliable FIFO; real scheduling is only perturbed by scripted delays in the pipe endpoints and by runs with models larger than the pipe buffer",
                  "C12: kernels, targets and the masters' uniform draws are parameters of the choreography"]
